@@ -4,6 +4,8 @@ package document
 import (
 	"encoding/xml"
 	"fmt"
+	"strconv"
+	"strings"
 )
 
 // SDT 结构化文档标签，用于目录等特殊功能
@@ -13,7 +15,8 @@ type SDT struct {
 	EndPr      *SDTEndPr      `xml:"w:sdtEndPr,omitempty"`
 	Content    *SDTContent    `xml:"w:sdtContent"`
 
-	// tocMaxLevel 记录生成目录时请求的最大级别，供 UpdateTOC 重建时使用（不序列化）
+	// tocMaxLevel 记录生成目录时请求的最大级别，供 UpdateTOC 重建时使用。
+	// 该字段本身不序列化：生成目录时写入 w:tag（见 tocLevelTag），打开文档时再从中恢复
 	tocMaxLevel int
 }
 
@@ -26,6 +29,7 @@ func (s *SDT) ElementType() string {
 type SDTProperties struct {
 	XMLName     xml.Name        `xml:"w:sdtPr"`
 	RunPr       *RunProperties  `xml:"w:rPr,omitempty"`
+	Tag         *SDTTag         `xml:"w:tag,omitempty"`
 	ID          *SDTID          `xml:"w:id,omitempty"`
 	Color       *SDTColor       `xml:"w15:color,omitempty"`
 	DocPartObj  *DocPartObj     `xml:"w:docPartObj,omitempty"`
@@ -66,6 +70,71 @@ func (s *SDTContent) MarshalXML(e *xml.Encoder, start xml.StartElement) error {
 type SDTID struct {
 	XMLName xml.Name `xml:"w:id"`
 	Val     string   `xml:"w:val,attr"`
+}
+
+// SDTTag SDT标记（供程序使用的任意字符串）
+type SDTTag struct {
+	XMLName xml.Name `xml:"w:tag"`
+	Val     string   `xml:"w:val,attr"`
+}
+
+// tocLevelTag 返回记录目录最大级别的标记，写法与TOC域指令的 \o 开关相同（TOC \o "1-N"）
+func tocLevelTag(maxLevel int) *SDTTag {
+	return &SDTTag{Val: fmt.Sprintf("TOC \\o \"1-%d\"", maxLevel)}
+}
+
+// tocLevelFromInstruction 从 TOC \o "1-N" 形式的域指令（或标记）中取出最大级别，取不到时返回0
+func tocLevelFromInstruction(instruction string) int {
+	instruction = strings.TrimSpace(instruction)
+	if !strings.HasPrefix(instruction, "TOC") {
+		return 0
+	}
+	const levelSwitch = `\o "1-`
+	i := strings.Index(instruction, levelSwitch)
+	if i < 0 {
+		return 0
+	}
+	digits := instruction[i+len(levelSwitch):]
+	if end := strings.IndexByte(digits, '"'); end >= 0 {
+		digits = digits[:end]
+	}
+	level, err := strconv.Atoi(digits)
+	if err != nil || level < 0 {
+		return 0
+	}
+	return level
+}
+
+// restoreTOCMaxLevel 为从文档中读取的目录SDT恢复 tocMaxLevel：
+// 优先使用本库写入的标记，其次使用内容中TOC域的指令（AutoGenerateTOC 或 Word 生成的目录）
+func (s *SDT) restoreTOCMaxLevel() {
+	if s.Properties == nil || s.Properties.DocPartObj == nil || s.Properties.DocPartObj.DocPartGallery == nil ||
+		s.Properties.DocPartObj.DocPartGallery.Val != "Table of Contents" {
+		return
+	}
+	if s.Properties.Tag != nil {
+		if level := tocLevelFromInstruction(s.Properties.Tag.Val); level > 0 {
+			s.tocMaxLevel = level
+			return
+		}
+	}
+	if s.Content == nil {
+		return
+	}
+	for _, element := range s.Content.Elements {
+		paragraph, ok := element.(*Paragraph)
+		if !ok {
+			continue
+		}
+		for i := range paragraph.Runs {
+			if instr := paragraph.Runs[i].InstrText; instr != nil {
+				if level := tocLevelFromInstruction(instr.Content); level > 0 {
+					s.tocMaxLevel = level
+					return
+				}
+			}
+		}
+	}
 }
 
 // SDTColor SDT颜色
@@ -117,6 +186,7 @@ func (d *Document) CreateTOCSDT(title string, maxLevel int) *SDT {
 				FontFamily: &FontFamily{ASCII: "宋体"},
 				FontSize:   &FontSize{Val: "21"},
 			},
+			Tag:   tocLevelTag(maxLevel),
 			ID:    &SDTID{Val: "147476628"},
 			Color: &SDTColor{Val: "DBDBDB"},
 			DocPartObj: &DocPartObj{
@@ -306,6 +376,7 @@ func (d *Document) parseSDT(decoder *xml.Decoder, startElement xml.StartElement)
 				if sdt.Content == nil {
 					sdt.Content = &SDTContent{Elements: []interface{}{}}
 				}
+				sdt.restoreTOCMaxLevel()
 				return sdt, nil
 			}
 		}
@@ -360,6 +431,11 @@ func (d *Document) parseSDTProperties(decoder *xml.Decoder) (*SDTProperties, err
 					return nil, err
 				}
 				properties.RunPr = run.Properties
+			case "tag":
+				properties.Tag = &SDTTag{Val: getAttributeValue(t.Attr, "val")}
+				if err := d.skipElement(decoder, t.Name.Local); err != nil {
+					return nil, err
+				}
 			case "id":
 				properties.ID = &SDTID{Val: getAttributeValue(t.Attr, "val")}
 				if err := d.skipElement(decoder, t.Name.Local); err != nil {
